@@ -57,5 +57,5 @@ TNext == TCfg \/ TFrame \/ TBad \/ TReset \/ TSnap
 
 (* high-water mark of consumed lines, printed for the driver *)
 Progress == TLCGet("stats").diameter - 1
-Accepted == (Progress = Len(Trace)) \/ PrintT(<<"REJECTED-AT", Progress + 1>>)
+Accepted == IF Progress = Len(Trace) THEN TRUE ELSE PrintT(<<"REJECTED-AT", Progress + 1>>)
 =============================================================================
